@@ -34,7 +34,10 @@ func checkC08(c *Ctx) {
 		c02Counts(c, p, m)
 		c02Sink(c, p, m)
 		c02Newline(c, p, m)
+		c02Pool(c, p, m)
+		c09Pooled(c, p, m, "R08.5", feasibleModes)
 	}
+	r.Rule("R08.5", "the record of exactly one call: in each output mode no field of the pooled encoder is read before the current call wrote it (engine E10, shared with R09.1), so nothing another call formatted can appear in this call's payload")
 	r.Rule("R02.1", "(shared with C02) at most one emission per call")
 	r.Rule("R02.2", "(shared with C02) one Write of the whole payload per destination")
 	r.Rule("R02.3", "(shared with C02) the payload is the finished buffer")
